@@ -873,6 +873,22 @@ func (u *seqUnit) runCase(j int64) (res seqCaseRes) {
 		return seqCaseRes{Kind: kind, NA: true}
 	}
 
+	// aftermath oracle (seq_aftermath.go): the call returned; the ordinary calls
+	// that follow it on the same instance must return as well
+	step := &probeStep{}
+
+	if k, msg, where := guardCall(func() { u.followUp(in, recv, step) }); k != "" {
+		if strings.Contains(msg, "c07 seq harness") {
+			panic(harnessError{msg})
+		}
+
+		if where == "" {
+			panic(harnessError{fmt.Sprintf("%s outside avfs code after case %s, in %s: %s", k, u.caseKey(j), step.String(), msg)})
+		}
+
+		return seqCaseRes{Kind: k, Msg: "after the call returned (" + kind + "), in " + step.String() + ": " + msg, Where: where}
+	}
+
 	return seqCaseRes{Kind: kind}
 }
 
